@@ -11,7 +11,7 @@ def default_to_str(val: Union[Expression, str, int, float]) -> str:
         if val.lower() in ('null', 'true', 'false'):
             return val.lower()
         else:
-            return f"'{prepare_text_for_dbml(val)}'"
+            return quote_string(val)
     elif isinstance(val, Expression):
         return val.dbml
     else:  # int or float or bool
